@@ -584,7 +584,7 @@ pub fn check(ctx: &Ctx) -> Check {
         Box::new(RandomPart {
             name: "writer-random",
             rule: "random shapes (1..24 axes, mostly length 1, up to three multi-digit axes) x f64 zoo values (NaN payloads, +-inf, subnormals); same validator; non-trivial = >=2 axes or residue in {0,1,63}",
-            cases: ctx.tier.pick(8000, 80_000),
+            cases: ctx.tier.pick(8000, 300_000),
             strategy: Box::new(|| writer_strategy().boxed()),
             eval: Box::new(eval_writer),
         }),
@@ -598,7 +598,7 @@ pub fn check(ctx: &Ctx) -> Check {
         Box::new(RandomPart {
             name: "reader-random",
             rule: "random dtype/order/version/shape/values with header spelling variants (quote character, 0..2 spaces around ':' and ',', key order, trailing comma, tuple spacing, 16- or 64-byte alignment); non-trivial = some element not identically representable in every dtype (raw value > 127)",
-            cases: ctx.tier.pick(10_000, 150_000),
+            cases: ctx.tier.pick(10_000, 600_000),
             strategy: Box::new(|| reader_strategy().boxed()),
             eval: Box::new(eval_reader),
         }),
